@@ -355,6 +355,31 @@ func (o *objectGoArrayReflect) iterateStringKeys() iterNextFunc {
 	}).next
 }
 
+func (o *objectGoArrayReflect) equal(other objectImpl) bool {
+	var ov reflect.Value
+	switch other := other.(type) {
+	case *objectGoArrayReflect:
+		ov = other.fieldsValue
+	case *objectGoSliceReflect:
+		ov = other.fieldsValue
+	default:
+		return false
+	}
+	v := o.fieldsValue
+	if v.Type() != ov.Type() {
+		return false
+	}
+	if v.CanAddr() && ov.CanAddr() && v.Type().Size() > 0 {
+		// the same Go variable (array, or slice header reached through a pointer)
+		return v.Addr().Pointer() == ov.Addr().Pointer()
+	}
+	return false
+}
+
+func (o *objectGoSliceReflect) equal(other objectImpl) bool {
+	return o.objectGoArrayReflect.equal(other)
+}
+
 func (o *objectGoArrayReflect) sortLen() int {
 	return o.fieldsValue.Len()
 }
